@@ -208,11 +208,24 @@ class TagFilter:
     """f(item): raises for items in `raising`; yields `fan[item]` outputs (as a generator) for items in `fan`;
     otherwise returns the single output (item, 0, worker). Items are small ints; `alias` sends some of them through the
     Multiprocessor as another value (None, '', (), 0.0, False - any finite stream of items is legal) and maps them back here."""
-    def __init__(self, raising=(), fan=None, delay=0.0, kinds=None, alias=None):
+    def __init__(self, raising=(), fan=None, delay=0.0, kinds=None, alias=None, slow_start=0.0):
         self.raising, self.fan, self.delay = set(raising), dict(fan or {}), delay
         self.kinds = dict(kinds or {})   # item -> name in KINDS (default: InjectedError)
         self.alias_inv = {ALIASES[v]: int(k) for k, v in (alias or {}).items()}
+        self.slow_start = slow_start     # seconds a real worker process needs before its copy of the filter is usable
+    def __getstate__(self):
+        return dict(self.__dict__)
+    def __setstate__(self, state):
+        self.__dict__.update(state)
+        if state.get("slow_start"):
+            import time, multiprocessing
+            # only while a spawned worker process is unpickling what its parent sent (the process object is not bootstrapped yet,
+            # so parent_process() is still None here; multiprocessing marks this phase with _inheriting)
+            if getattr(multiprocessing.current_process(), "_inheriting", False):
+                time.sleep(state["slow_start"])
     def filter(self, item):
+        if isinstance(item, list):       # items that travel as freshly built one-element lists (stream='fresh')
+            item = item[0]
         if self.alias_inv and not (isinstance(item, int) and not isinstance(item, bool)):
             item = self.alias_inv.get(item, item)
         if self.delay:
@@ -226,6 +239,7 @@ class TagFilter:
     def expected(self, items):
         out = []
         for it in items:
+            if isinstance(it, list): it = it[0]
             if self.alias_inv and not (isinstance(it, int) and not isinstance(it, bool)): it = self.alias_inv.get(it, it)
             if it in self.raising: continue
             out.extend((it, j) for j in range(self.fan[it])) if it in self.fan else out.append((it, 0))
